@@ -112,6 +112,23 @@ def orient_comparisons(tree):
                 return ast.copy_location(ast.Compare(left=node.comparators[0], ops=[flip[type(node.ops[0])]()], comparators=[node.left]), node)
             return node
     tree = Orient().visit(tree)
+
+    # tests only (truth-value context): not (not a and not b) -> a or b; not (not a or not b) -> a and b; not not a -> a
+    def neg_free(t):
+        if isinstance(t, ast.UnaryOp) and isinstance(t.op, ast.Not):
+            inner = t.operand
+            if isinstance(inner, ast.UnaryOp) and isinstance(inner.op, ast.Not):
+                return neg_free(inner.operand)
+            if isinstance(inner, ast.BoolOp) and all(isinstance(v, ast.UnaryOp) and isinstance(v.op, ast.Not) for v in inner.values):
+                op = ast.Or() if isinstance(inner.op, ast.And) else ast.And()
+                return ast.copy_location(ast.BoolOp(op=op, values=[neg_free(v.operand) for v in inner.values]), t)
+            return ast.copy_location(ast.UnaryOp(op=ast.Not(), operand=neg_free(inner)), t)
+        if isinstance(t, ast.BoolOp):
+            return ast.copy_location(ast.BoolOp(op=t.op, values=[neg_free(v) for v in t.values]), t)
+        return t
+    for n in ast.walk(tree):
+        if isinstance(n, (ast.If, ast.While, ast.IfExp, ast.Assert)):
+            n.test = neg_free(n.test)
     ast.fix_missing_locations(tree)
     return tree
 
@@ -191,6 +208,24 @@ def inline_adjacent_temporaries(tree):
                                 and isinstance(s1.value, ast.Name) and s1.value.id == s0.targets[0].id:
                             pairs[s0.targets[0].id] = pairs.get(s0.targets[0].id, 0) + 1
 
+        def _cond_pair(s0, s1):
+            if not (isinstance(s0, ast.Assign) and len(s0.targets) == 1 and isinstance(s0.targets[0], ast.Name) and isinstance(s1, ast.If)):
+                return False
+            t_ = s1.test
+            while isinstance(t_, ast.UnaryOp) and isinstance(t_.op, ast.Not):
+                t_ = t_.operand
+            return isinstance(t_, ast.Name) and t_.id == s0.targets[0].id
+        cpairs = {}
+        for x in ast.walk(fn):
+            blks = [getattr(x, f_, None) for f_ in ('body', 'orelse', 'finalbody')]
+            if isinstance(x, ast.Try):
+                blks += [h.body for h in x.handlers]
+            for blk in blks:
+                if isinstance(blk, list):
+                    for s0, s1 in zip(blk, blk[1:]):
+                        if _cond_pair(s0, s1):
+                            cpairs[s0.targets[0].id] = cpairs.get(s0.targets[0].id, 0) + 1
+
         def block(stmts):
             out = []
             i = 0
@@ -204,6 +239,18 @@ def inline_adjacent_temporaries(tree):
                     for h in s.handlers:
                         h.body = block(h.body)
                 nxt = stmts[i + 1] if i + 1 < len(stmts) else None
+                if isinstance(s, ast.Assign) and len(s.targets) == 1 and isinstance(s.targets[0], ast.Name) and isinstance(nxt, ast.If):
+                    # `c = <test>; if c:` (c bound here only, read there only) -> `if <test>:`
+                    name = s.targets[0].id
+                    t_ = nxt.test
+                    neg_ = False
+                    while isinstance(t_, ast.UnaryOp) and isinstance(t_.op, ast.Not):
+                        t_, neg_ = t_.operand, not neg_
+                    if isinstance(t_, ast.Name) and t_.id == name and name not in params and stores.get(name) == loads.get(name) == cpairs.get(name) \
+                            and not isinstance(s.value, (ast.Lambda, ast.Yield, ast.YieldFrom, ast.Await, ast.NamedExpr)):
+                        nxt.test = ast.copy_location(ast.UnaryOp(op=ast.Not(), operand=s.value), nxt.test) if neg_ else s.value
+                        i += 1
+                        continue
                 if isinstance(s, ast.Assign) and len(s.targets) == 1 and isinstance(s.targets[0], ast.Name) and isinstance(nxt, ast.Return) and isinstance(nxt.value, ast.Name):
                     name = s.targets[0].id
                     if name not in params and stores.get(name) == loads.get(name) == pairs.get(name) and not isinstance(s.value, (ast.Lambda, ast.Yield, ast.YieldFrom, ast.Await, ast.NamedExpr)):
